@@ -1245,7 +1245,9 @@ VmTrap vm_core_execute(VmState *vm) {
                 return trap_error(vm, VM_ERR_OUT_OF_BOUNDS, "ARR_REMOVE: index %lld out of range", (long long)idx64);
             }
             uint32_t idx = (uint32_t)idx64;
+            NanoValue removed = arr.as.array->elements[idx];
             vm_array_remove(arr.as.array, idx);
+            vm_release(&vm->heap, removed);   /* the array held this reference */
             stack_push(vm, arr);
             break;
         }
